@@ -10,14 +10,19 @@ open MongoModel MongoModel.Spec
 
 set_option linter.tactic.unusedName false
 
-theorem near_iff_untouched (now : Int) (c c' : Coll) : Near now c c' ↔ Untouched now c c' := by
-  constructor
-  · rintro (⟨n, h⟩ | ⟨n, c1, h1, h⟩)
-    · exact ⟨n, .inl h⟩
-    · exact ⟨n, .inr ⟨c1, h1, h⟩⟩
-  · rintro ⟨n, h | ⟨c1, h1, h⟩⟩
-    · exact .inl ⟨n, h⟩
-    · exact .inr ⟨n, c1, h1, h⟩
+/-- `Untouched` is `Near` without a mark on the created flag -/
+theorem untouched_near (now : Int) (c c' : Coll) (h : Untouched now c c') : Near now c c' := by
+  obtain ⟨n, h | ⟨c1, h1, h⟩⟩ := h
+  · exact ⟨false, by simp, .inl ⟨n, h⟩⟩
+  · exact ⟨false, by simp, .inr ⟨n, c1, h1, h⟩⟩
+
+/-- where existence is recorded (every reachable state) the mark changes nothing: `Near` is
+    `Untouched` -/
+theorem near_untouched (now : Int) (c c' : Coll) (hr : c.Recorded) (h : Near now c c') :
+    Untouched now c c' := by
+  rcases h.exact hr with ⟨n, h⟩ | ⟨n, c1, h1, h⟩
+  · exact ⟨n, .inl h⟩
+  · exact ⟨n, .inr ⟨c1, h1, h⟩⟩
 
 theorem near_iter (now : Int) (c c1 : Coll) (f : Val) (ms : List Val)
     (h : iterDocuments now c f = .ok (c1, ms)) : Near now c c1 := by
